@@ -53,6 +53,10 @@ static const char *const handover_fns[] = { "upipe_xfer_mgr_detach", "upipe_qsrc
 #if QUEUE_PROP == 1
 #define PID "C01"
 #define KEY_ACTIVE(key) (!strncmp(key, "audit/", 6))
+#elif QUEUE_PROP == 4
+/* C04 (flow definition before data, again after every change -- across the queue as well) */
+#define PID "C04"
+#define KEY_ACTIVE(key) (!strncmp(key, "flowdef/", 8))
 #elif QUEUE_PROP == 5
 /* C05 (the queue sink is one of its anchors): only what C05 states -- nothing lost, duplicated, reordered or altered; held
  * buffers come out first and in arrival order; a full queue holds instead of dropping */
